@@ -13,6 +13,7 @@ fn main() {
     let rest = &args[2..];
     let code = match args[1].as_str() {
         "replay-prog" => xv::prog::cmd_replay(rest),
+        "prog-record" => xv::prog::cmd_record(rest),
         "rev-record" => xv::rev::cmd_record(rest),
         "drive-record" => xv::drive::cmd_record(rest),
         "limits-replay" => xv::limits::cmd_replay(rest),
